@@ -76,6 +76,7 @@ typedef struct hist_s {
   uint64_t unlinks_seen, unlinks_vs_iters;
   /* key locality: writes concentrate in a sliding window of the universe (narrow files, chained overlaps) */
   int loc_width, loc_center, loc_until;
+  vrng_t spell_rng;
   /* stats */
   int flushes, compactions, reopens, fullchecks, multi_level_checks;
 } hist_t;
@@ -87,6 +88,18 @@ static const char *focus_name[] = {"c01", "c06", "c07", "c13", "c14"};
 
 static ldb_slice_t row_key(const hist_t *H, int row) {
   return ldb_slice(H->m.rows[row].key, H->m.rows[row].klen);
+}
+
+/* key bytes for an API call: under the case-insensitive comparator any spelling names the same key */
+static ldb_slice_t api_key(hist_t *H, int row, uint32_t *spell_out) {
+  static __thread uint8_t kbuf[4][512];
+  static __thread int kb_i = 0;
+  uint32_t spell = 0;
+  uint8_t *b = kbuf[kb_i++ & 3];
+  if (H->m.cmp_kind == CMP_NOCASE) spell = (uint32_t)(vr_next(&H->spell_rng) | 1);
+  m_spelled_key(&H->m, row, spell, b);
+  if (spell_out) *spell_out = spell;
+  return ldb_slice(b, H->m.rows[row].klen);
 }
 
 /* row for a write/read: uniform, or inside the current locality window */
@@ -153,7 +166,7 @@ static int value_matches(const mver_t *e, const void *data, size_t size) {
 static void check_get_at(hist_t *H, int row, const ldb_snapshot_t *snap, uint64_t ver, const char *prop,
                          const char *who) {
   ldb_readopt_t ro = *ldb_readopt_default;
-  ldb_slice_t k = row_key(H, row), v;
+  ldb_slice_t k = api_key(H, row, NULL), v;
   const mver_t *e = m_get(&H->m, row, ver);
   int rc, rc2;
   ro.snapshot = snap;
@@ -230,10 +243,13 @@ static int iter_expect(hist_t *H, ldb_iter_t *it, int with_snap, uint64_t ver, i
     ldb_slice_t k = ldb_iter_key(it);
     ldb_slice_t v = ldb_iter_value(it);
     const mver_t *e = m_get(&H->m, row, ver);
-    if (k.size != H->m.rows[row].klen || memcmp(k.data, H->m.rows[row].key, k.size) != 0) {
+    uint8_t ek[512];
+    /* the key comes back in the spelling of the newest visible write (case-insensitive comparator) */
+    m_spelled_key(&H->m, row, e ? e->spell : 0, ek);
+    if (k.size != H->m.rows[row].klen || memcmp(k.data, ek, k.size) != 0) {
       bad = "iter-wrong-key";
       snprintf(detail, sizeof(detail), "expected key '%s', got '%s'",
-               vh_esc(H->m.rows[row].key, H->m.rows[row].klen), vh_esc(k.data, k.size));
+               vh_esc(ek, H->m.rows[row].klen), vh_esc(k.data, k.size));
     } else if (!value_matches(e, v.data, v.size)) {
       bad = "iter-wrong-value";
       snprintf(detail, sizeof(detail), "key '%s' expected vid=%llx len=%u got len=%zu vid=%llx",
@@ -710,7 +726,8 @@ static void quiescent_checks(hist_t *H, const char *why, int force_gc) {
 
 static void do_put(hist_t *H, int row, uint32_t vlen, int sync) {
   ldb_writeopt_t wo = *ldb_writeopt_default;
-  ldb_slice_t k = row_key(H, row), v;
+  uint32_t spell;
+  ldb_slice_t k = api_key(H, row, &spell), v;
   uint64_t vid = (H->next_vid += 2) | (vr_next(&H->r) & 1);
   int rc;
   vh_fill_value(H->vbuf, vlen, vid);
@@ -718,13 +735,13 @@ static void do_put(hist_t *H, int row, uint32_t vlen, int sync) {
   wo.sync = sync;
   rc = ldb_put(H->h.db, &k, &v, &wo);
   expect_ok(H, rc, "put");
-  if (rc == LDB_OK) m_put(&H->m, row, vid, vlen);
+  if (rc == LDB_OK) m_put_spell(&H->m, row, vid, vlen, spell);
   vh_count("puts", 1);
 }
 
 static void do_del(hist_t *H, int row, int sync) {
   ldb_writeopt_t wo = *ldb_writeopt_default;
-  ldb_slice_t k = row_key(H, row);
+  ldb_slice_t k = api_key(H, row, NULL);
   int rc;
   wo.sync = sync;
   rc = ldb_del(H->h.db, &k, &wo);
@@ -737,12 +754,12 @@ static void do_batch(hist_t *H) {
   ldb_batch_t *b = ldb_batch_create();
   ldb_writeopt_t wo = *ldb_writeopt_default;
   int n = 1 + (int)vr_skewed(&H->r, 7), i, rc;
-  struct { int row, del; uint64_t vid; uint32_t vlen; } *ups = malloc(sizeof(*ups) * (size_t)(n + 1));
+  struct { int row, del; uint64_t vid; uint32_t vlen, spell; } *ups = malloc(sizeof(*ups) * (size_t)(n + 1));
   int hotrow = (int)vr_uniform(&H->r, (uint32_t)H->m.nrows);
   if (n > 200) n = 200;
   for (i = 0; i < n; i++) {
     int row = vr_chance(&H->r, 150) ? hotrow : pick_row(H);
-    ldb_slice_t k = row_key(H, row);
+    ldb_slice_t k = api_key(H, row, &ups[i].spell);
     ups[i].row = row;
     if (vr_chance(&H->r, 200)) {
       ups[i].del = 1;
@@ -765,7 +782,7 @@ static void do_batch(hist_t *H) {
   if (rc == LDB_OK) {
     for (i = 0; i < n; i++) {
       if (ups[i].del) m_del(&H->m, ups[i].row);
-      else m_put(&H->m, ups[i].row, ups[i].vid, ups[i].vlen);
+      else m_put_spell(&H->m, ups[i].row, ups[i].vid, ups[i].vlen, ups[i].spell);
     }
     for (i = 0; i < n && i < 16; i++) check_get(H, ups[i].row);
   }
@@ -900,6 +917,7 @@ static void do_reopen(hist_t *H, int mutate_cfg) {
     cfg_t c = H->h.cfg;
     cfg_mutate_reopen(&c, &H->r);
     if (H->tmpl == 1) c.max_file_size = 1 << 20;
+    if (c.cmp_kind == CMP_NOCASE) c.filter_bits = 0;
     dbh_set_cfg(&H->h, &c);
   }
   rc = dbh_open(&H->h, 0);
@@ -1118,6 +1136,8 @@ static void run_case(uint64_t seed, int caseidx, int focus, const char *base, in
   H->caseidx = caseidx;
   vr_seed(&H->r, seed * 1000003ULL + (uint64_t)caseidx * 7919ULL + (uint64_t)focus * 104729ULL);
   cfg_random(&cfg, &H->r);
+  vr_seed(&H->spell_rng, seed * 77 + (uint64_t)caseidx);
+  if (vr_chance(&H->r, 130)) { cfg.cmp_kind = CMP_NOCASE; cfg.filter_bits = 0; }   /* byte-wise bloom is not legal here */
   H->tmpl = caseidx % 5;   /* 0 none, 1 straddle, 2 tombstone, 3 overlap, 4 level-0 chain */
   if (H->tmpl == 1) cfg.max_file_size = 1 << 20;
   H->max_snaps = focus == F_C06 ? MAX_SNAPS : 3;
